@@ -247,6 +247,22 @@ CLAIMED = {
         "missing file, not at the directive (C10_later_file_error_refuted).",
    technique="Coq proof (unfolding the include step under universally quantified state) + vm_compute instances + forest correspondence (partial)",
    ref="5 (C10)"),
+ "C02": dict(
+   text="PARTIAL. Proved (Properties_C02.v, closed under the global context): soundness of the parser model with respect "
+        "to the documented grammar - the manual's BNF (settings with optional ; or , terminators, scalars incl. adjacent "
+        "strings, arrays of scalars, lists, groups, trailing and repeated commas as grammar.y allows) as mutually inductive "
+        "derivation relations over token lists; by mutual induction over the four parsing functions, for every fuel, "
+        "state and context: whatever p_value / p_agg / p_elems / p_settings / p_config accept is a derivation, hence a "
+        "successful config_read's token stream (C18 tokens, includes expanded) is derivable; duplicate names are rejected "
+        "when overrides are off; the messages. NOT proved: completeness, the denoted tree, the first-error "
+        "characterisation; they are tied on every run by exhaustive enumeration of all viable token-kind prefixes (to "
+        "length 5 quick / 7 thorough) with every one-token invalid extension, in several concrete spellings, overrides "
+        "off/on, against the real library and against a reference parser written from the manual.",
+   note="grammar.c's LALR tables and bison's driver are modelled as a recursive-descent function performing the actions in "
+        "bison's order, not translated. Nesting beyond 1900 levels (YYMAXDEPTH) is outside the model. Known finding F4: a "
+        "mismatched STRING element is reported at the line of the following token.",
+   technique="Coq proof (grammar as inductive relations; parser soundness by mutual induction) + exhaustive-bounded correspondence (partial)",
+   ref="5 (C02)"),
 }
 
 REASON_PENDING = "not decided in the committed state of this round: the Coq theorem for this property is not yet in the tree, and a property is never claimed on testing alone (DESIGN.md section 11)"
